@@ -1216,7 +1216,7 @@ class Response:
                 self.headers["Cache-Control"] = value
 
                 return
-            value = CacheControl.parse(value, "response")
+            value = CacheControl.parse(value, type="response")
         cache = self.cache_control
         cache.properties.clear()
         cache.properties.update(value.properties)
